@@ -137,11 +137,15 @@ P = {
   text="PARTIAL proof + observation. Proved over Frame.v: an operation whose transcription passes the ownership analysis writes no pre-existing "
        "location; all transcribed public operations pass (the old in-place accessor is refuted by witness); results as sets are independent of "
        "input listing order; minor-stage candidate independence under the per-structure filter when the pool adds nothing (the pooled variant list "
-       "is refuted by witness: open finding, by design). NOT proved: that the transcriptions are what the Python code does, process-level "
+       "is refuted by witness: open finding, by design). Tie by translation: harness/gen_frame.py abstractly interprets the Python AST of 21 "
+       "operations (accessors, writers, stage functions and model builders, evidence filters, Coverage/CNSolution construction, "
+       "Sample._make_coverage, genotype()) into aliasing programs (gen/Frame_here.v) on every run, and C14_tie_ops_here_frame proves that every one "
+       "of them writes only to containers it created itself, so no container of the database or of the evidence changes (a code change that writes "
+       "through an alias breaks this obligation; the two repaired aliasing defects and two seeded ones do). NOT proved: process-level "
        "determinism and hash-seed independence; these are observed: deep snapshots of Gene/Coverage/Sample before and after every query, accessor, "
        "stage and writer compared with a fresh load; repeat runs, other genes in between, multi-gene runs with a failing gene, fresh processes with "
        "PYTHONHASHSEED 0-7, candidate pools and orders.",
-  note=TRUST + "CPython object identity, pickle for snapshots. Open findings: pooled variants (by design), exact-tie hash-seed order, diplotype arrangement follows pool order.",
+  note=TRUST + "harness/gen_frame.py (its classification of Python expressions into fresh containers / aliases / in-place writes, the linearisation of branches and loops, the list of operations and of log sinks). CPython object identity, pickle for snapshots. Open findings: pooled variants (by design), exact-tie hash-seed order, diplotype arrangement follows pool order.",
   tech="Coq proof over ownership/frame model (partial) + snapshot differential and fresh-process determinism runs on the implementation"),
  "C15": dict(
   text="Theorems over Filter.v and MajorModel/MajorSpec: quality_filter keeps exactly observations meeting both thresholds; basic_filter threshold "
